@@ -1,9 +1,11 @@
 #!/bin/bash
 # confirm_seed.sh <ID> <mN> : confirm a seeded change in a scratch worktree and store it under /verif/seeded/<ID>-<mN>/
 # checks: patch applies; suite passes with it; demo fails with it; demo passes without it
-ID=$1; M=$2; SRC=/tmp/wt/$ID-out/$M
-WT=/tmp/wt/confirm-$ID-$M
-OUT=/verif/seeded/$ID-$M
+# optional: SRCROOT (default /tmp/wt) = where the sub-agent left <ID>-out/<mN>/; OUTNAME (default <mN>) = name under seeded/
+ID=$1; M=$2; SRCROOT=${SRCROOT:-/tmp/wt}; SRC=$SRCROOT/$ID-out/$M
+mkdir -p /tmp/wt
+WT=/tmp/wt/confirm-$ID-${OUTNAME:-$M}
+OUT=/verif/seeded/$ID-${OUTNAME:-$M}
 git -C /repo worktree add --detach "$WT" HEAD >/dev/null 2>&1 || { echo "$ID $M: worktree failed"; exit 2; }
 cp /repo/aiokafka/record/_crecords/*.so "$WT/aiokafka/record/_crecords/" 2>/dev/null
 cd "$WT"
